@@ -126,6 +126,7 @@ class Gen:
             return None
         os.makedirs(os.path.dirname(dst), exist_ok=True)
         over = os.path.lexists(dst)
+        self._silent = over and self._same_stamp(src, dst) and str(d) not in self.rec.trusted()
         os.replace(src, dst)
         return "mv %d/%s %s%s" % (d, n, m, " (replacing it)" if over else "")
 
@@ -137,8 +138,20 @@ class Gen:
             return None
         x, y = self.rng.sample(fl, 2)
         px, py = self.a.path(d, x), self.a.path(d, y)
+        self._silent = self._same_stamp(px, py) and str(d) not in self.rec.trusted()
         os.rename(px, px + ".swap"); os.rename(py, px); os.rename(px + ".swap", py)
         return "swap names %d/%s <-> %s" % (d, x, y)
+
+    @staticmethod
+    def _same_stamp(p, q):
+        """other bytes arriving under a recorded path with the recorded size and time stamp: when the inode numbers of the disk
+        are not trusted nothing tells the scan that the file changed - for the histories this is silent damage, like a flipped
+        bit, not a change a sync has to notice"""
+        try:
+            a, b = os.lstat(p), os.lstat(q)
+        except OSError:
+            return False
+        return (a.st_size, a.st_mtime_ns) == (b.st_size, b.st_mtime_ns) and not os.path.islink(p) and not os.path.islink(q)
 
     def op_twin(self):
         """a second file with the size and the time stamp of an existing one (other bytes)"""
@@ -937,10 +950,12 @@ class Gen:
         elif name in ("check", "fix", "scrub", "diff", "touchcmd", "list", "rehashcmd"):
             desc = self.cmd(name)
         else:
+            self._silent = False
             desc = getattr(self, "op_" + name)()
             if desc is None:
                 return
-            self.rec.env(desc, damage=name in ("corrupt", "corrupt_burst", "corrupt_parity", "lose_disk", "lose_parity", "swapinodes"))
+            self.rec.env(desc, damage=name in ("corrupt", "corrupt_burst", "corrupt_parity", "lose_disk", "lose_parity", "swapinodes")
+                         or bool(self._silent))
         self.steps.append(desc)
 
     def run(self, n):
@@ -981,7 +996,9 @@ def validate(recs, tag, invariants=("Conforms", "NoPropertyViolation", "C06_Pari
     out = {"path": path, "lines": n, "states": res.distinct, "generated": res.generated, "violated": res.violated,
            "error": res.error, "accepted": False, "line": None, "diag": None, "pviol": None, "raw": res.out[-6000:],
            # occurrences of recorded known findings: (property, signature, 1-based line of the trace file)
-           "known_hits": [(a, b, int(c)) for a, b, c in re.findall(r'<<"KNOWN-HIT", "(C\d\d)", "([^"]+)", (\d+)>>', res.out)]}
+           "known_hits": [(a, b, int(c)) for a, b, c in re.findall(r'<<"KNOWN-HIT", "(C\d\d)", "([^"]+)", (\d+)>>', res.out)],
+           # replayed witness histories whose fix did not go through the branch they were generated for
+           "witness_miss": sorted(set(re.findall(r'<<"WITNESS-MISS", (\d+), "([^"]+)">>', res.out)))}
     if res.violated:
         m = re.findall(r"/\\ l = (\d+)", res.out)
         if m:
